@@ -118,6 +118,16 @@ void vh_ctx_reinit(vh_ctx_t * v) {
     v->ctx->user_context = v;
 }
 
+void vh_device_clear(vh_ctx_t * v) { v->ctx->buffer.position = 0; }
+void vh_swap_input_buffer(vh_ctx_t * v, size_t new_len) {
+    char * nb = (char *) malloc(new_len);
+    memset(nb, 0xEE, new_len);
+    ASAN_UNPOISON_MEMORY_REGION(v->inbuf, v->inbuf_len);
+    free(v->inbuf);
+    v->inbuf = nb; v->inbuf_len = new_len;
+    v->ctx->buffer.data = nb; v->ctx->buffer.length = new_len; v->ctx->buffer.position = 0;
+}
+
 void vh_ctx_clear_capture(vh_ctx_t * v) {
     vh_buf_reset(&v->out); vh_buf_reset(&v->log);
     v->nflush = v->nreset = v->nwrite = v->nsrq = 0; v->nerrs = 0; v->nerrs_total = 0; v->ninv = 0; v->write_after_flush = 0;
